@@ -15,6 +15,10 @@ mod ce;
 mod facts;
 #[path = "../types/gen07.rs"]
 mod gen07;
+/// run_single; with PVH_PREMODULE set the module is the SECOND module of a compilation (pvh::alpha::PREMODULE first)
+fn run_cell_source(source: &str) -> alpha::Outcome {
+    alpha::run_single(source, "case.pn", alpha::Upto::Resolve, false)
+}
 
 fn usage() -> ! {
     eprintln!(
@@ -131,7 +135,7 @@ fn replay_c07(args: &[String]) {
         let case: Value = serde_json::from_str(line).expect("case json");
         let cell = c07::Cell::from_json(&case["c"]);
         let r = c07::render(&cell);
-        let o = alpha::run_single(&r.source, "case.pn", alpha::Upto::Resolve, false);
+        let o = run_cell_source(&r.source);
         let mut v = outcome_json(&o);
         v["i"] = json!(i);
         v["line"] = json!(r.line);
@@ -328,7 +332,7 @@ fn replay_c08(args: &[String]) {
         let case: Value = serde_json::from_str(line).expect("case json");
         let cell = c08::Cell::from_case(&case);
         let r = c08::render(&cell);
-        let o = alpha::run_single(&r.source, "case.pn", alpha::Upto::Resolve, false);
+        let o = run_cell_source(&r.source);
         let mut v = outcome_json(&o);
         v["i"] = json!(i);
         v["line"] = json!(r.line);
